@@ -191,10 +191,25 @@ func c14One(c *vf.Ctx, sub string, i int, r *rand.Rand, ids []Ident) {
 	// workers: explicit syncs and announcements (some failing) per publisher
 	var wg sync.WaitGroup
 	var explicitOK atomic.Int64 // explicit queried-head syncs that ran a sync and returned success
+	var resyncSeq atomic.Int64
 	explicitSync := func(p *c08Pub) {
 		en, _ := enterN.LoadOrStore(goroutineID(), new(atomic.Int64))
 		before := en.(*atomic.Int64).Load()
-		if got, err := s.SyncAdChain(context.Background(), p.front.AddrInfo()); err == nil && got.Defined() && en.(*atomic.Int64).Load() > before {
+		// one call in four is a resync of the whole chain up to the queried head, or a sync with an explicit older
+		// stop advertisement: they complete, record the (possibly unchanged) head as latest and notify like any other
+		var so []dagsync.SyncOption
+		switch resyncSeq.Add(1) % 8 {
+		case 3:
+			so = append(so, dagsync.WithAdsResync(true))
+			c.Inc("explicit_resyncs")
+		case 7:
+			p.mu.Lock()
+			stop := p.chain.Cids[0]
+			p.mu.Unlock()
+			so = append(so, dagsync.WithStopAdCid(stop))
+			c.Inc("explicit_syncs_with_stop_cid")
+		}
+		if got, err := s.SyncAdChain(context.Background(), p.front.AddrInfo(), so...); err == nil && got.Defined() && en.(*atomic.Int64).Load() > before {
 			explicitOK.Add(1)
 		}
 	}
